@@ -207,4 +207,24 @@ def authorize (S : Schema) (C : List StmtCase) (cfg : Cfg) (pm : PermMap) (s : S
     List Check × Option Check :=
   authLoop s pm (kindModel C n) (tablesModel S C cfg n)
 
+/-! ### a multi-statement @sql request (sql_permissions.go authorizeAndFormatStatements)
+
+`for i, stmt := range statements { … if status := authorizeStatement(session, w, db.DSN, p); status > OK { return nil, nil, status } }`
+for a non-admin caller whose statements all parsed.  The statements are authorized one after the other,
+each by its own run of `authorizeStatement` — so each `UsageWrite` reference is checked with the
+permission `writePermissionForKind` gives for THAT statement's kind — and nothing is carried from one
+statement to the next.  The first denial ends the request (nothing is handed on for execution). -/
+
+/-- the checks performed, in order, and on denial the index of the refused statement with the failing check -/
+def authorizeBatch (S : Schema) (C : List StmtCase) (cfg : Cfg) (pm : PermMap) (s : Sess) :
+    List Node → List Check × Option (Nat × Check)
+  | [] => ([], none)
+  | n :: ns =>
+    let r := authorize S C cfg pm s n
+    match r.2 with
+    | some c => (r.1, some (0, c))
+    | none =>
+      let q := authorizeBatch S C cfg pm s ns
+      (r.1 ++ q.1, q.2.map (fun p => (p.1 + 1, p.2)))
+
 end EgoVerif.C15
